@@ -257,7 +257,7 @@ pub fn run(tier: Tier) -> i32 {
     let started = std::time::Instant::now();
     let (depth, k, a, pairs, secs) = match tier {
         Tier::Quick => (8, 1, 16, false, 50),
-        Tier::Thorough => (12, 3, 16, true, 1800),
+        Tier::Thorough => (10, 2, 12, true, 2400),
     };
     let set = program_set(k, a, 0);
     let ctl = RunCtl::new(secs);
